@@ -43,10 +43,12 @@ type sconfig struct {
 	sasl         bool // the backend session implements its own SASL mechanisms
 	authCmd      bool // the plaintext credential attempt uses AUTHENTICATE instead of LOGIN
 	otherMech    bool // ... with a mechanism other than PLAIN
+	rev2Only     bool // the server is configured with IMAP4rev2 as its only protocol revision
+	preauth      bool // PREAUTH greeting (a trusted channel set up elsewhere), then UNAUTHENTICATE: from then on the ordinary rules apply
 }
 
 func (c sconfig) String() string {
-	return fmt.Sprintf("TLSConfig=%v InsecureAuth=%v afterLogin=%v saslSession=%v authCmd=%v otherMech=%v", c.tlsConfig, c.insecureAuth, c.afterLogin, c.sasl, c.authCmd, c.otherMech)
+	return fmt.Sprintf("TLSConfig=%v InsecureAuth=%v afterLogin=%v saslSession=%v authCmd=%v otherMech=%v rev2Only=%v preauth=%v", c.tlsConfig, c.insecureAuth, c.afterLogin, c.sasl, c.authCmd, c.otherMech, c.rev2Only, c.preauth)
 }
 
 // waitConsumed waits until the server has read everything written so far and
@@ -67,9 +69,21 @@ func serverCase(t fataler, cfg sconfig, suffix string, cuts []int, handshake boo
 			if cfg.sasl {
 				f = stub.FAll
 			}
-			return stub.Session(core, f), nil, nil
+			var g *imapserver.GreetingData
+			if cfg.preauth {
+				g = &imapserver.GreetingData{PreAuth: true}
+			}
+			return stub.Session(core, f), g, nil
 		},
 		InsecureAuth: cfg.insecureAuth,
+	}
+	switch {
+	case cfg.rev2Only && cfg.preauth:
+		opts.Caps = imap.CapSet{imap.CapIMAP4rev2: {}, imap.CapUnauthenticate: {}}
+	case cfg.rev2Only:
+		opts.Caps = imap.CapSet{imap.CapIMAP4rev2: {}}
+	case cfg.preauth:
+		opts.Caps = imap.CapSet{imap.CapIMAP4rev1: {}, imap.CapUnauthenticate: {}}
 	}
 	if cfg.tlsConfig {
 		opts.TLSConfig = tlsutil.ServerConfig()
@@ -87,6 +101,21 @@ func serverCase(t fataler, cfg sconfig, suffix string, cuts []int, handshake boo
 	}
 	// capability offer on the unencrypted connection
 	caps := " " + g.Code + " "
+	if cfg.preauth {
+		// the greeting describes the authenticated state; leave it and look again
+		if _, st, err := raw.Cmd("u0", "UNAUTHENTICATE"); err != nil || st.Status != "OK" {
+			fail("UNAUTHENTICATE after PREAUTH: %v %v", st, err)
+		}
+		core.Reset()
+		lines, st, err := raw.Cmd("u1", "CAPABILITY")
+		if err != nil || st.Status != "OK" {
+			fail("CAPABILITY: %v %v", st, err)
+		}
+		caps = " "
+		for _, l := range lines {
+			caps += strings.TrimSpace(strings.TrimPrefix(strings.TrimSpace(string(l.Raw)), "* CAPABILITY")) + " "
+		}
+	}
 	if cfg.insecureAuth {
 		if !strings.Contains(caps, " AUTH=") || strings.Contains(caps, " LOGINDISABLED ") {
 			fail("greeting capabilities %q: InsecureAuth set, expected AUTH= and no LOGINDISABLED", g.Code)
@@ -214,6 +243,15 @@ func serverCase(t fataler, cfg sconfig, suffix string, cuts []int, handshake boo
 	} else {
 		more, _ := raw.C.ReadAvailable(20*time.Millisecond, 300*time.Millisecond)
 		after = append(after, more...)
+		// a peer that breaks the handshake with something that is not TLS,
+		// waits for the server's reaction, and then goes on in plaintext: the
+		// upgrade has failed, nothing sent now may be treated as protected
+		raw.C.Write([]byte("this is not a TLS record\r\n"))
+		more, _ = raw.C.ReadAvailable(20*time.Millisecond, 300*time.Millisecond)
+		after = append(after, more...)
+		raw.C.Write([]byte("z9 LOGIN lateuser latepass\r\nz10 NOOP\r\n"))
+		more, _ = raw.C.ReadAvailable(20*time.Millisecond, 300*time.Millisecond)
+		after = append(after, more...)
 	}
 	// plaintext check: anything the server wrote after the OK line must be a
 	// TLS record (handshake 0x16 / alert 0x15), never an IMAP line
@@ -255,6 +293,8 @@ func TestPropServerBoundary(t *testing.T) {
 			sasl:         rapid.Bool().Draw(t, "saslSession"),
 			authCmd:      rapid.Bool().Draw(t, "authCmd"),
 			otherMech:    rapid.Bool().Draw(t, "otherMech"),
+			rev2Only:     rapid.IntRange(0, 3).Draw(t, "rev2Only") == 0,
+			preauth:      rapid.IntRange(0, 3).Draw(t, "preauth") == 0,
 		}
 		suffix := rapid.SampledFrom(suffixes).Draw(t, "suffix")
 		total := len("x STARTTLS\r\n") + len(suffix)
@@ -564,7 +604,8 @@ func TestPropClientBoundary(t *testing.T) {
 func TestReplayScenarios(t *testing.T) {
 	for _, cfg := range []sconfig{{tlsConfig: true}, {tlsConfig: true, insecureAuth: true}, {}, {insecureAuth: true}, {tlsConfig: true, insecureAuth: true, afterLogin: true}, {tlsConfig: true, afterLogin: true},
 		{tlsConfig: true, afterLogin: true, sasl: true, authCmd: true}, {afterLogin: true, sasl: true, authCmd: true}, {tlsConfig: true, insecureAuth: true, afterLogin: true, sasl: true, authCmd: true},
-		{afterLogin: true, sasl: true, authCmd: true, otherMech: true}, {tlsConfig: true, afterLogin: true, sasl: true, authCmd: true, otherMech: true}, {insecureAuth: true, afterLogin: true, authCmd: true, otherMech: true}} {
+		{afterLogin: true, sasl: true, authCmd: true, otherMech: true}, {tlsConfig: true, afterLogin: true, sasl: true, authCmd: true, otherMech: true}, {insecureAuth: true, afterLogin: true, authCmd: true, otherMech: true},
+		{rev2Only: true}, {rev2Only: true, tlsConfig: true, afterLogin: true}, {preauth: true, afterLogin: true}, {preauth: true, tlsConfig: true, afterLogin: true, sasl: true, authCmd: true}, {preauth: true, rev2Only: true, afterLogin: true}} {
 		for _, sfx := range []string{"", "y LOGIN injuser injpass\r\n"} {
 			for _, hs := range []bool{true, false} {
 				serverCase(t, cfg, sfx, nil, hs)
